@@ -29,7 +29,6 @@ import (
 var skipAPI = map[string]string{
 	"Start": "opens the gRPC listener", "Stop": "stops the gRPC server", "RunGateway": "opens the HTTP gateway",
 	"GetClientStatus":    "reads the p2p SyncManager/Switch (nil in the simulated node)",
-	"SendRawTransaction": "hands the transaction to mass-core's ProcessTx (consensus validation + p2p relay: environment)",
 }
 
 type apiMethod struct {
